@@ -129,7 +129,39 @@ ToUint16(v) == LET w == ToNumberW(v) IN
 FromCharCode(a) == RVal(VStr([i \in 1..Len(a) |-> ToUint16(a[i])]))
 Uint16Supported(v) == ConvSupported(v) /\ LET w == ToNumberW(v) IN WIsNaN(w) \/ WIsInf(w) \/ (WTruncClamp(w) < Lim /\ WTruncClamp(w) > 0 - Lim)
 
-Methods == {"fn:String", "fn:String.fromCharCode", "charAt", "charCodeAt", "indexOf", "lastIndexOf", "includes", "startsWith", "endsWith",
+\* replace / replaceAll with a STRING search value (ECMA-262 22.1.3.19 / .20, GetSubstitution with no captures:
+\* only $$, $&, $` and $' are special, every other "$" is copied). The replacement value is a template (ToString of a
+\* non-callable) or, for the methods "replace_fn" / "replaceAll_fn", a function of (matched, position, string) that the
+\* driver supplies: it returns "<" matched "|" position "|" string ">".
+RECURSIVE Subst(_, _, _, _)
+Subst(t, matched, pre, post) ==
+  IF t = <<>> THEN <<>>
+  ELSE IF t[1] = 36 /\ Len(t) >= 2 /\ t[2] \in {36, 38, 96, 39}
+       THEN (CASE t[2] = 36 -> <<36>> [] t[2] = 38 -> matched [] t[2] = 96 -> pre [] OTHER -> post)
+            \o Subst(SubSeq(t, 3, Len(t)), matched, pre, post)
+       ELSE <<t[1]>> \o Subst(Tail(t), matched, pre, post)
+FnReplacement(s, matched, p) == <<60>> \o matched \o <<124>> \o IntText(p) \o <<124>> \o s \o <<62>>
+ReplacementAt(s, search, p, fn, templ) ==
+  IF fn THEN FnReplacement(s, search, p)
+  ELSE Subst(templ, search, Slice(s, 0, p), Slice(s, p + Len(search), Len(s)))
+ReplaceStr(s, a, fn) ==
+  LET search == ToStrU(Arg(a, 1))
+      templ == IF fn THEN <<>> ELSE ToStrU(Arg(a, 2))
+      p == IndexFrom(s, search, 0)
+  IN RVal(VStr(IF p = -1 THEN s
+               ELSE Slice(s, 0, p) \o ReplacementAt(s, search, p, fn, templ) \o Slice(s, p + Len(search), Len(s))))
+RECURSIVE ReplaceAllFrom(_, _, _, _, _, _)
+ReplaceAllFrom(s, search, fn, templ, from, endOfLast) ==      \* from: where the next search starts; endOfLast: end of the previous match
+  LET p == IF from > Len(s) THEN -1 ELSE IndexFrom(s, search, from)
+  IN IF p = -1 THEN Slice(s, endOfLast, Len(s))
+     ELSE Slice(s, endOfLast, p) \o ReplacementAt(s, search, p, fn, templ)
+          \o ReplaceAllFrom(s, search, fn, templ, p + Max(1, Len(search)), p + Len(search))
+ReplaceAllStr(s, a, fn) ==
+  LET search == ToStrU(Arg(a, 1))
+      templ == IF fn THEN <<>> ELSE ToStrU(Arg(a, 2))
+  IN RVal(VStr(ReplaceAllFrom(s, search, fn, templ, 0, 0)))
+
+Methods == {"replace", "replaceAll", "replace_fn", "replaceAll_fn", "fn:String", "fn:String.fromCharCode", "charAt", "charCodeAt", "indexOf", "lastIndexOf", "includes", "startsWith", "endsWith",
             "substring", "slice", "repeat", "concat", "trim", "trimStart", "trimEnd",
             "toLowerCase", "toUpperCase", "toString", ".length", "[]", "split"}
 
@@ -145,6 +177,8 @@ Expected(m, s, a) ==
     [] m = "toLowerCase" -> ToLowerM(s)     [] m = "toUpperCase" -> ToUpperM(s)
     [] m = "toString" -> ToStringM(s)       [] m = ".length" -> LengthM(s)
     [] m = "[]" -> IndexM(s, a)             [] m = "split" -> SplitM(s, a)
+    [] m = "replace" -> ReplaceStr(s, a, FALSE)       [] m = "replaceAll" -> ReplaceAllStr(s, a, FALSE)
+    [] m = "replace_fn" -> ReplaceStr(s, a, TRUE)     [] m = "replaceAll_fn" -> ReplaceAllStr(s, a, TRUE)
 
 \* which argument positions are index-like (ToIntegerOrInfinity) / text-like (ToString)
 IndexPos(m) == CASE m \in {"charAt", "charCodeAt", "substring", "slice", "repeat", "fn:String.fromCharCode"} -> {1, 2}
@@ -153,15 +187,19 @@ IndexPos(m) == CASE m \in {"charAt", "charCodeAt", "substring", "slice", "repeat
 TextPos(m) == CASE m = "fn:String" -> {1}
                 [] m \in {"indexOf", "lastIndexOf", "includes", "startsWith", "endsWith", "split"} -> {1}
                 [] m = "concat" -> {1, 2}
+                [] m \in {"replace", "replaceAll", "replace_fn", "replaceAll_fn"} -> {1}
                 [] OTHER -> {}
-Arity(m) == CASE m \in {"charAt", "charCodeAt", "repeat", "[]", "fn:String"} -> 1
+\* replacement templates (ToString, then GetSubstitution)
+TemplPos(m) == IF m \in {"replace", "replaceAll"} THEN {2} ELSE {}
+Arity(m) == CASE m \in {"charAt", "charCodeAt", "repeat", "[]", "fn:String", "replace_fn", "replaceAll_fn"} -> 1
               [] m \in {"trim", "trimStart", "trimEnd", "toLowerCase", "toUpperCase", "toString", ".length"} -> 0
               [] OTHER -> 2
 
 \* Is the case inside the fragment this module specifies (and safe to run)?
 Supported(m, s, a) ==
   /\ Len(a) <= Arity(m)
-  /\ \A i \in 1..Len(a) : (i \in IndexPos(m) => ConvSupported(a[i])) /\ (i \in TextPos(m) => ToStrSupported(a[i]))
+  /\ \A i \in 1..Len(a) : (i \in IndexPos(m) => ConvSupported(a[i])) /\ (i \in TextPos(m) \cup TemplPos(m) => ToStrSupported(a[i]))
+  /\ (m \in {"replace_fn", "replaceAll_fn"} => Len(a) = 1)
   /\ (m = "fn:String.fromCharCode" => \A i \in 1..Len(a) : Uint16Supported(a[i]))
   /\ (m \in {"fn:String", "fn:String.fromCharCode"} => s = <<>>)          \* plain functions: no receiver
   /\ (m = "repeat" => Len(a) = 1 /\ (s = <<>> \/ ToIntClamp(a[1]) <= 6 \/ IsPosInfArg(a[1])))
